@@ -146,3 +146,69 @@ def invalidate_last_rule(repo: Repo, prop: str, rule_id: str, floor: int = 3) ->
                 key="order",
             )
     return r
+
+
+# ---------------------------------------------------------------------------------------------------------------------
+MEASURES = {"norm", "point_to_line_distance", "point_to_plane_distance", "arc_length_3point", "get_length", "hypot"}
+
+
+def length_snapshot_rule(repo: Repo, prop: str, rule_id: str, floor: int = 20) -> RuleRun:
+    """A transformable entity derives its lengths from its live points (a property). A length MEASURED from coordinates
+    (norm / distance of point expressions) and stored in an attribute is a snapshot: translate/rotate keep it valid but
+    scale() - and any direct edit of the points - does not, unless the class' scale() rewrites that attribute. What is
+    written later (the radius of a searchableSphere, a chop size) then belongs to the entity as it was constructed."""
+    r = RuleRun(prop, rule_id, floor=floor, what="no element stores a length measured from its coordinates in an attribute (a snapshot that scale() leaves stale); lengths are derived from the live points or rewritten by the class' scale()")
+    for cls in _elements(repo):
+        stores = []
+        for m in cls.methods.values():
+            for n in walk_shallow(m.node):
+                if isinstance(n, (ast.Assign, ast.AnnAssign)) and n.value is not None:
+                    tgts = n.targets if isinstance(n, ast.Assign) else [n.target]
+                    for t in tgts:
+                        if isinstance(t, ast.Attribute) and isinstance(t.value, ast.Name) and t.value.id == "self":
+                            stores.append((m, n, t.attr))
+        bad = 0
+        for m, n, attr in stores:
+            if m.name == "scale":
+                continue
+            measured = [c for c in ast.walk(n.value) if isinstance(c, ast.Call) and (attr_chain(c.func) or "").split(".")[-1] in MEASURES]
+            # a measure nested in the arguments of a constructor / factory call builds an object, the attribute is not the length itself
+            direct = [c for c in measured if not _inside_other_call(n.value, c)]
+            if not direct:
+                continue
+            sc = repo.find_method(cls, "scale")
+            rewrites = sc is not None and any(
+                isinstance(x, (ast.Assign, ast.AugAssign, ast.AnnAssign)) and any(isinstance(t, ast.Attribute) and t.attr == attr for t in (x.targets if isinstance(x, ast.Assign) else [x.target]))
+                for x in ast.walk(sc.node)
+            )
+            if rewrites:
+                continue
+            bad += 1
+            r.bad(
+                m,
+                f"{cls.name}.{m.name} stores a measured length in self.{attr} ('{ast.unparse(n)[:80]}') and {cls.name}.scale() ({sc.qualname if sc else 'none'}) does not rewrite it: after scale() - or after the points are moved "
+                f"(Mesh.backport, an optimizer) - self.{attr} still holds the length of the entity as constructed, and whatever is written from it (searchableSphere radius, sizes) does not match the vertices",
+                n,
+                key=f"snapshot:{cls.name}.{attr}",
+            )
+        if not bad:
+            r.ok(cls, f"{cls.name}: {len(stores)} attribute stores, none a measured length left to go stale", key=f"class:{cls.name}")
+    return r
+
+
+def _inside_other_call(root: ast.expr, target: ast.Call) -> bool:
+    """True if `target` sits in the arguments of a call that builds something else (a constructor, a factory); arithmetic,
+    abs/float/min/max/round around it keep it a length."""
+    keep = {"abs", "float", "min", "max", "round", "sqrt", "fabs"}
+
+    def visit(node, under) -> bool:
+        if node is target:
+            return under
+        for child in ast.iter_child_nodes(node):
+            u = under or (isinstance(node, ast.Call) and (attr_chain(node.func) or "").split(".")[-1] not in keep | MEASURES and child is not node.func)
+            res = visit(child, u)
+            if res is not None:
+                return res
+        return None
+
+    return bool(visit(root, False))
